@@ -3,6 +3,8 @@ package main
 import (
 	"fmt"
 	"math/rand"
+	"os"
+	"path/filepath"
 	"reflect"
 	"sort"
 	"strings"
@@ -18,6 +20,9 @@ func logVar(prefix, v string) pOp {
 }
 
 // forEach over literal items / a list query / a leaf query; body = {log item, trace, set, abort at item k}
+// directories made for glob item sources (removed with the process's temp root)
+var c14GlobDirs []string
+
 func c14ForEach(r *rand.Rand) Case {
 	data := map[string]any{"flag": "yes", "items": []any{"x", "y", "z"}[:1+r.Intn(3)], "single": "only", "keep": map[string]any{"a": 1}}
 	v := []string{"it", "forEach", "elem"}[r.Intn(3)]
@@ -26,7 +31,22 @@ func c14ForEach(r *rand.Rand) Case {
 		op.Var = ""
 	}
 	var items []string
-	switch r.Intn(4) {
+	switch r.Intn(5) {
+	case 4: // the files a pattern matches, in the order of the directory listing, each bound as its path
+		dir := filepath.Join(procTmp("c14glob"), fmt.Sprint(r.Int63()))
+		_ = os.MkdirAll(dir, 0o755)
+		c14GlobDirs = append(c14GlobDirs, dir)
+		for i, n := 0, r.Intn(4); i < n; i++ {
+			nm := fmt.Sprintf("%d-%s.%s", r.Intn(4), []string{"a", "b"}[r.Intn(2)], []string{"txt", "txt", "yaml"}[r.Intn(3)])
+			_ = os.WriteFile(filepath.Join(dir, nm), []byte("x"), 0o644)
+		}
+		op.Glob = filepath.Join(dir, []string{"*.txt", "*", "[0-1]*", "none-*"}[r.Intn(4)])
+		items, _ = filepath.Glob(op.Glob)
+		sort.Strings(items)
+		op.Items = items
+		if len(items) == 0 {
+			op.Items = []string{}
+		}
 	case 0:
 		op.Query = "items"
 		for _, x := range data["items"].([]any) {
@@ -400,6 +420,60 @@ func c14BodyOrder(r *rand.Rand) Case {
 	return c
 }
 
+// a variable name is a NAME (a key at the root of the data), whatever characters it holds: a dot in it does not make it a
+// path — per item the body finds the item under exactly that key, and afterwards the key is gone and the rest of the
+// data is as it was, on the normal exit and on the failing one (Go side only)
+func c14ForEachOddVar(r *rand.Rand) Case {
+	return c14OddVarCase([]string{"loop.item", "a.b.c", "x.", "it em", "é"}[r.Intn(5)], r.Intn(2) == 0, "")
+}
+
+// (a name ending in [n] is the one exception on the unchanged tree: the builder reads it as a list position — the C01
+// finding, met again here; recorded in known_findings.txt under the token below, every other name is checked in earnest)
+func c14ForEachIndexedVar() Case {
+	return c14OddVarCase("item[0]", false, "variable-name-ending-in-[n]-is-read-as-a-list-position: ")
+}
+
+func c14OddVarCase(v string, failing bool, token string) Case {
+	first := strings.Split(strings.Split(v, ".")[0], "[")[0]
+	body := map[string]any{"template": map[string]any{"template": "{{ .acc }}[{{ index . \"" + v + "\" }}]", "path": "acc"}}
+	if failing {
+		body["steps"] = map[string]any{"boom": map[string]any{"order": 1, "when": "{{ eq (index . \"" + v + "\") \"i1\" }}", "abort": map[string]any{"message": "stop"}}}
+	}
+	tree := map[string]any{"forEach": map[string]any{"item": []any{"i0", "i1", "i2"}, "var": v, "action": body}}
+	bs, _ := yaml.Marshal(tree)
+	var spec pipeline.ActionSpec
+	var fail []string
+	if err := yaml.Unmarshal(bs, &spec); err != nil {
+		return Case{Kind: "foreach-odd-var", Fail: []string{"tree does not decode: " + err.Error()}, Key: fmt.Sprint("fov", v, failing)}
+	}
+	start := map[string]any{"acc": "", "other": map[string]any{"k": 1}}
+	if first != v { // user data under the name's first segment: none of the forEach's business
+		start[first] = "keep"
+	}
+	d := anyToContainer(start)
+	var err error
+	if pn := guard(func() { err = pipeline.New(pipeline.WithData(d)).Execute(spec) }); pn != "" {
+		fail = append(fail, token+"panic: "+pn)
+	}
+	if failing != (err != nil) {
+		fail = append(fail, token+fmt.Sprintf("forEach with variable %q: error=%v, expected an error=%v", v, err, failing))
+	}
+	fin, _ := nodeToAny(d).(map[string]any)
+	wantAcc := "[i0][i1][i2]"
+	if failing {
+		wantAcc = "[i0][i1]"
+	}
+	if fmt.Sprint(fin["acc"]) != wantAcc {
+		fail = append(fail, token+fmt.Sprintf("forEach with variable %q: the body saw %v, expected %v", v, fin["acc"], wantAcc))
+	}
+	delete(fin, "acc")
+	delete(start, "acc")
+	if !reflect.DeepEqual(fin, start) {
+		fail = append(fail, token+fmt.Sprintf("forEach with variable %q left %v behind (was %v)", v, fin, start))
+	}
+	return Case{Kind: "foreach-odd-var", Desc: map[string]any{"var": v, "failing": failing, "final": fin}, Fail: fail, Nontrivial: true, Key: fmt.Sprint("fov", v, failing)}
+}
+
 // a forEach whose item is given by reference, inside the body of another forEach that changes the
 // referenced leaf per item: the reference is resolved every time the inner forEach runs (Go side only)
 func c14ForEachRef(r *rand.Rand) Case {
@@ -594,9 +668,13 @@ func c14Loop(r *rand.Rand) Case {
 
 func init() {
 	register(&Prop{
-		ID:   "C14",
-		Rule: "kinds: foreach (literal items / list query / leaf query / unresolved query; variable name default or custom; body = log of the variable + optional trace/set + failure at one chosen item through a guarded child step or always; body's own when ignored), foreach-container (each key exactly once, any order; Go side only), call (define then call with single-key, default and dotted argsPath incl. paths next to existing data; undefined callee; same name defined twice; failing callee; second call; literal and templated arguments incl. a nested map, read back inside the callee), call-in-loop (a call in a forEach body, once or twice per item with the data changed in between: top-level and nested arguments must be rendered anew every time), literal items incl. the empty string, foreach-nested (a forEach in a forEach body, default and custom variable names on either level), define-then-call-later (two runs on one executor: a rejected second define must not replace the first), loop (counter loops with bounds 0-5 whose body and post-action log the counter, post increments it; body failing at i=0; loops whose test is false at once; a stale counter in the data before init; init that puts the counter beyond the bound). Observables: full event sequence, error, final data vs the Coq interpreter; Go side: variable / arguments absent afterwards, unrelated data undisturbed, items x body in order up to the failure, init,(test,body,post)^n,test. Non-trivial: failure at an inner item / dotted argsPath / >= 2 iterations. Distinct by Gallina term. Calls that pass nothing (with stale user data at the arguments path), a callee called without arguments from inside another callable, and (Go side only) counting loops of 999-2048 iterations. Templated argument paths; guarded steps reading what an earlier step of the same cloned body wrote; a body whose log operation reads what its template operation wrote; forEach items/queries by reference inside another forEach (Go side). A forEach whose query goes through the outer item; items by reference to a number and a boolean; step orders 5/10/100.",
+		ID:     "C14",
+		Rule:   "kinds: foreach (literal items / list query / leaf query / unresolved query / the files a glob pattern matches in a temporary directory (each bound as its path, in listing order; a pattern matching nothing); variable name default or custom; body = log of the variable + optional trace/set + failure at one chosen item through a guarded child step or always; body's own when ignored), foreach-container (each key exactly once, any order; Go side only), call (define then call with single-key, default and dotted argsPath incl. paths next to existing data; undefined callee; same name defined twice; failing callee; second call; literal and templated arguments incl. a nested map, read back inside the callee), call-in-loop (a call in a forEach body, once or twice per item with the data changed in between: top-level and nested arguments must be rendered anew every time), literal items incl. the empty string, foreach-nested (a forEach in a forEach body, default and custom variable names on either level), define-then-call-later (two runs on one executor: a rejected second define must not replace the first), loop (counter loops with bounds 0-5 whose body and post-action log the counter, post increments it; body failing at i=0; loops whose test is false at once; a stale counter in the data before init; init that puts the counter beyond the bound). Observables: full event sequence, error, final data vs the Coq interpreter; Go side: variable / arguments absent afterwards, unrelated data undisturbed, items x body in order up to the failure, init,(test,body,post)^n,test. Non-trivial: failure at an inner item / dotted argsPath / >= 2 iterations. Distinct by Gallina term. Calls that pass nothing (with stale user data at the arguments path), a callee called without arguments from inside another callable, and (Go side only) counting loops of 999-2048 iterations. Templated argument paths; guarded steps reading what an earlier step of the same cloned body wrote; a body whose log operation reads what its template operation wrote; forEach items/queries by reference inside another forEach (Go side). A forEach whose query goes through the outer item; items by reference to a number and a boolean; step orders 5/10/100. Every 16th case (foreach-odd-var, Go side): variable names with dots and brackets are names, not paths: found by the body under exactly that key, gone afterwards, the rest of the data as it was, on both exits.",
+		Corpus: func() []Case { return []Case{c14ForEachIndexedVar()} },
 		Gen: func(r *rand.Rand, tier string, idx int) Case {
+			if idx%16 == 11 {
+				return c14ForEachOddVar(r)
+			}
 			switch idx % 8 {
 			case 0, 1, 2:
 				return c14ForEach(r)
